@@ -70,6 +70,14 @@ def exec_while(it, node, fr):
 
 
 def run_clause(it, fn, fr, extra=None):
+    I = _I()
+    try:
+        return _run_clause(it, fn, fr, extra)
+    except I.PyRaise as e:
+        raise EngineError(f'a loop-contract clause ({fn.__name__}) raised {e}')
+
+
+def _run_clause(it, fn, fr, extra=None):
     import inspect
     ns = {}
     for p in inspect.signature(fn).parameters:
